@@ -268,6 +268,21 @@ def run_e2e(case, ctx):
         return
     mps.eval()
     mpslib.assign_coefficients(mps, rng)
+    if case.get('wide') and case['seed'] % 2 == 0:
+        # skewed assignments (many channels at the low precisions, few at the top one): the shape
+        # for which a promotion of two groups at once fills NE16 tiles exactly
+        for kind, names, q in mpslib.unique_qtz(mps):
+            if kind != 'w' or q.alpha.dim() != 2:
+                continue
+            precs = [int(p) for p in q.precision.tolist()]
+            order = sorted(range(len(precs)), key=lambda i: precs[i])
+            probs = {2: (0.7, 0.3), 3: (0.5, 0.35, 0.15), 4: (0.08, 0.45, 0.32, 0.15)}[len(precs)]
+            with torch.no_grad():
+                for c in range(q.alpha.shape[1]):
+                    win = order[rng.choices(range(len(precs)), weights=probs)[0]]
+                    q.alpha.data[:, c] = torch.tensor([rng.uniform(-1.0, 0.0) for _ in precs])
+                    q.alpha.data[win, c] = rng.uniform(0.5, 1.5)
+        ctx.cls('e2e-wide-skewed')
     with torch.no_grad():
         mps(mps._input_example)
     before = bits_of(mps.summary())
@@ -275,6 +290,15 @@ def run_e2e(case, ctx):
     with torch.no_grad():
         mps(mps._input_example)
         cost_before = float(mps.get_cost('ne16'))
+    if (case['seed'] // 5) % 3 == 0:
+        # the stored samples do not match the coefficients when the refinement is called: the last
+        # forward pass was a soft-sampling training forward, then the model was switched to eval
+        mps.update_softmax_options(hard=False)
+        mps.train()
+        with torch.no_grad():
+            mps(mps._input_example)
+        mps.eval()
+        ctx.cls('e2e-stale-samples-at-call')
     _rec['calls'].clear()
     _rec['evaluated'] = []
     buf = io.StringIO()
